@@ -159,3 +159,21 @@ Definition record_many_case : case :=
 
 Lemma record_many_example : known_class record_many_case = None /\ spec_ok record_many_case (run_case record_many_case) = true.
 Proof. vm_compute. auto. Qed.
+
+(* why Block::len must be the contiguous completed prefix (trailing_ones) and not the number of
+   completion bits (count_ones): the two agree on a quiescent block, but data() re-reads the bitmap
+   after the quiescence test.  Witness: the snapshot (thread 2) has passed 504/505 on the empty block,
+   pusher 0 claims slot 0, pusher 1 claims, writes and publishes slot 1; thread 2 now stands at 506.
+   A popcount length would hand out the unwritten slot 0; the trailing-ones length hands out nothing
+   (and by C05_delivery_reads_written_slots never an unwritten slot, in any reachable configuration). *)
+Definition count_true (l : list bool) : nat := length (filter (fun x => x) l).
+
+Definition popcount_sched : list nat := [0; 0; 0; 1; 1; 2; 2; 2; 2; 0; 1; 1; 1]%nat.
+
+Lemma popcount_len_reads_unwritten :
+  let cf := fst (exec (step BS true true) site (init_config [[CPush 1]; [CPush 2]; [CData]]) popcount_sched) in
+  let k := getb (heap (fst cf)) 0 in
+  option_map pcl (nth_error (snd cf) 2) = Some (WD false 0 []) /\
+  count_true (bdone k) = 1%nat /\ tones (bdone k) = 0%nat /\
+  data_of k (count_true (bdone k)) = [garbage] /\ data_of k (tones (bdone k)) = [].
+Proof. vm_compute. repeat split; reflexivity. Qed.
